@@ -161,6 +161,8 @@ def match_known(known, pid, viol):
             continue
         if k.get("code") and k["code"] != viol.get("code"):
             continue
+        if k.get("prop") and k["prop"] != viol.get("prop"):
+            continue
         if k.get("class") and k["class"] != viol.get("cls"):
             continue
         return k
